@@ -223,6 +223,7 @@ type Runner struct {
 	qf      []string
 	hands   map[int]*sod.Search
 	handQ   map[int][]Cmp // the whole chain each kept search value stands for
+	asyncOf map[string]*sod.Async // the caller's asynchronous settings, one value per (test, threshold, timeout)
 	handLim map[int]int   // Limit is a setting OF a search value: the last one asked for stays in force (absent: none)
 	handRev map[int]bool  // ... and so does Reverse
 	nev     int
@@ -272,7 +273,24 @@ func extOf(c Cfg) string {
 	return c.Ext
 }
 
-func (r *Runner) schema() sod.Schema { return schemaFor(r.cfg) }
+// schema builds the Schema value handed to Create.  Within one test the SAME *Async value is handed over whenever the same
+// asynchronous settings are asked for again (a caller that keeps one Schema value per mode and switches back and forth):
+// what the library does with its own copy must not depend on the caller's value being fresh.
+func (r *Runner) schema() sod.Schema {
+	s := schemaFor(r.cfg)
+	if s.AsyncWrites != nil && s.AsyncWrites.Enable {
+		key := fmt.Sprintf("%s|%d|%d", r.t.ID, s.AsyncWrites.Threshold, s.AsyncWrites.Timeout)
+		if r.asyncOf == nil {
+			r.asyncOf = map[string]*sod.Async{}
+		}
+		if a, ok := r.asyncOf[key]; ok {
+			s.AsyncWrites = a
+		} else {
+			r.asyncOf[key] = s.AsyncWrites
+		}
+	}
+	return s
+}
 
 func schemaFor(cfg Cfg) sod.Schema {
 	r := struct{ cfg Cfg }{cfg}
